@@ -142,12 +142,23 @@ def rule_R1_refimpl(ctx, F):
 import r_c as _rc           # noqa: E402
 from csym import CSym       # noqa: E402
 
+NEON = ("--target=aarch64-linux-gnu", "-isystem", os.path.join(os.path.dirname(os.path.dirname(os.path.dirname(os.path.abspath(__file__)))), "engines", "cfront", "stubs", "aarch64"),
+        "-isystem", "/usr/include/x86_64-linux-gnu")
+
+
+
+
+def _mf(mflags):
+    return NEON if mflags == "NEON" else mflags
+
+
 C_ROUND_FILES = [
     # (file, -m flags, round function, filters)
     ("c/blake3_sse2.c", ("-msse2",), ["round_fn"], ["round_fn", "rot", "addv", "xorv"]),
     ("c/blake3_sse41.c", ("-msse4.1",), ["round_fn"], ["round_fn", "rot", "addv", "xorv"]),
     ("c/blake3_avx2.c", ("-mavx2",), ["round_fn"], ["round_fn", "rot", "addv", "xorv"]),
     ("c/blake3_avx512.c", ("-mavx512f", "-mavx512vl"), ["round_fn4", "round_fn8", "round_fn16"], ["round_fn", "rot", "add_", "xor_"]),
+    ("c/blake3_neon.c", "NEON", ["round_fn4"], ["round_fn", "rot", "add_", "xor_"]),
 ]
 
 
@@ -246,7 +257,7 @@ def rule_R1_c(ctx):
     # SIMD C files: filtered AST dumps (immintrin.h makes the full AST ~150 MB)
     n = 0
     for path, mflags, fns, filters in C_ROUND_FILES:
-        tus = [_rc.tu(path, (), extra_args=mflags, filt=flt) for flt in filters]
+        tus = [_rc.tu(path, (), extra_args=_mf(mflags), filt=flt) for flt in filters]
         sched_glob = {g["name"]: g for g in hdr_globals}
         for fn in fns:
             n += 1
@@ -258,7 +269,7 @@ def rule_R1_c(ctx):
                     cs.glob["MSG_SCHEDULE"] = cs.const_init(ms["init"])
                 return cs
             c_round_check(ctx, factory, fn, "%s:%s" % (os.path.basename(path), fn), path)
-    ctx.floor("C SIMD round functions", n, 6)
+    ctx.floor("C SIMD round functions", n, 7)
 
 
 # ------------------------------------------------------------------ K4: lane counters ----
@@ -266,12 +277,13 @@ import lanecalc  # noqa: E402
 
 C_LOAD_COUNTERS = [("c/blake3_sse2.c", ("-msse2",), "load_counters", 4), ("c/blake3_sse41.c", ("-msse4.1",), "load_counters", 4),
                    ("c/blake3_avx2.c", ("-mavx2",), "load_counters", 8), ("c/blake3_avx512.c", ("-mavx512f", "-mavx512vl"), "load_counters4", 4),
-                   ("c/blake3_avx512.c", ("-mavx512f", "-mavx512vl"), "load_counters8", 8), ("c/blake3_avx512.c", ("-mavx512f", "-mavx512vl"), "load_counters16", 16)]
+                   ("c/blake3_avx512.c", ("-mavx512f", "-mavx512vl"), "load_counters8", 8), ("c/blake3_avx512.c", ("-mavx512f", "-mavx512vl"), "load_counters16", 16),
+                   ("c/blake3_neon.c", "NEON", "load_counters4", 4)]
 
 
 def rule_K4_c(ctx):
     for path, mflags, fn, lanes in C_LOAD_COUNTERS:
-        t = _rc.tu(path, (), extra_args=mflags, filt="load_counters")
+        t = _rc.tu(path, (), extra_args=_mf(mflags), filt="load_counters")
         f = t.funcs.get(fn)
         if f is None:
             raise MissingAnchor("%s in %s" % (fn, path))
@@ -333,7 +345,8 @@ C_STATE_FNS = [("c/blake3_sse2.c", ("-msse2",), "blake3_hash4_sse2", "load_count
                ("c/blake3_avx512.c", ("-mavx512f", "-mavx512vl"), "blake3_hash8_avx512", "load_counters8", "hash"),
                ("c/blake3_avx512.c", ("-mavx512f", "-mavx512vl"), "blake3_xof8_avx512", "load_counters8", "xof"),
                ("c/blake3_avx512.c", ("-mavx512f", "-mavx512vl"), "blake3_hash16_avx512", "load_counters16", "hash"),
-               ("c/blake3_avx512.c", ("-mavx512f", "-mavx512vl"), "blake3_xof16_avx512", "load_counters16", "xof")]
+               ("c/blake3_avx512.c", ("-mavx512f", "-mavx512vl"), "blake3_xof16_avx512", "load_counters16", "xof"),
+               ("c/blake3_neon.c", "NEON", "blake3_hash4_neon", "load_counters4", "hash")]
 
 
 def _c_all_stmts(stmts):
@@ -363,7 +376,7 @@ def rule_K5_c(ctx):
     v[12],v[13] = the (lo, hi) outputs of load_counters*(counter, increment_counter|true), v[14]=set1(block length),
     v[15]=set1(flags)"""
     for path, mflags, fn, lc, kind in C_STATE_FNS:
-        t = _rc.tu(path, (), extra_args=mflags, filt=fn)
+        t = _rc.tu(path, (), extra_args=_mf(mflags), filt=fn)
         f = t.funcs.get(fn)
         if f is None:
             raise MissingAnchor("%s in %s" % (fn, path))
@@ -440,7 +453,7 @@ def rule_K5_c(ctx):
                     bad = "v[%d] is %s ; required %s" % (i, _cshow(e), want)
                     break
         ctx.ob(bad is None, inst, where, bad or "v = [h_vecs[0..8], set1(IV[0..4]), counter lo, counter hi, block length, flags]; h_vecs = set1(%s[i]); %s(counter, %s)" % (src, lc, "increment_counter" if kind == "hash" else "true"))
-    ctx.floor("C transposed-state initialisers", len(C_STATE_FNS), 9)
+    ctx.floor("C transposed-state initialisers", len(C_STATE_FNS), 10)
 
 
 def rule_K5_rust(ctx, F):
@@ -598,7 +611,8 @@ C_FLAG_KERNELS = [("c/blake3_portable.c", (), "hash_one_portable"), ("c/blake3_s
                   ("c/blake3_sse41.c", ("-msse4.1",), "hash_one_sse41"), ("c/blake3_sse41.c", ("-msse4.1",), "blake3_hash4_sse41"),
                   ("c/blake3_avx2.c", ("-mavx2",), "blake3_hash8_avx2"),
                   ("c/blake3_avx512.c", ("-mavx512f", "-mavx512vl"), "hash_one_avx512"), ("c/blake3_avx512.c", ("-mavx512f", "-mavx512vl"), "blake3_hash4_avx512"),
-                  ("c/blake3_avx512.c", ("-mavx512f", "-mavx512vl"), "blake3_hash8_avx512"), ("c/blake3_avx512.c", ("-mavx512f", "-mavx512vl"), "blake3_hash16_avx512")]
+                  ("c/blake3_avx512.c", ("-mavx512f", "-mavx512vl"), "blake3_hash8_avx512"), ("c/blake3_avx512.c", ("-mavx512f", "-mavx512vl"), "blake3_hash16_avx512"),
+                  ("c/blake3_neon.c", "NEON", "hash_one_neon"), ("c/blake3_neon.c", "NEON", "blake3_hash4_neon")]
 
 
 def rule_F8_c(ctx):
@@ -610,7 +624,7 @@ def rule_F8_c(ctx):
             e = e[1]
         return e
     for path, mflags, fname in C_FLAG_KERNELS:
-        t = _rc.tu(path, (), extra_args=mflags, filt=fname)
+        t = _rc.tu(path, (), extra_args=_mf(mflags), filt=fname)
         f = t.funcs.get(fname)
         if f is None:
             raise MissingAnchor("%s in %s" % (fname, path))
@@ -664,7 +678,7 @@ def rule_F8_c(ctx):
             elif not (len(end[1]) == 2 and end[1][0] == loop[0] and end[1][1][0] == "if" and end[1][1][2] == 0 and end[1][1][1] in ("blocks == 1", "block + 1 == blocks")):
                 bad = "|= flags_end must sit under the last-block test of the loop (found under %s)" % (end[1],)
         ctx.ob(bad is None, inst, where, bad or "init flags|flags_start ; last block |= flags_end ; use ; reset to flags")
-    ctx.floor("C kernels with a block-flag schedule", len(C_FLAG_KERNELS), 10)
+    ctx.floor("C kernels with a block-flag schedule", len(C_FLAG_KERNELS), 12)
 
 
 def _cshow_cond(e):
@@ -681,7 +695,8 @@ def _cshow_cond(e):
 C_DRIVERS = [("c/blake3_portable.c", (), "blake3_hash_many_portable", "hash"), ("c/blake3_sse2.c", ("-msse2",), "blake3_hash_many_sse2", "hash"),
              ("c/blake3_sse41.c", ("-msse4.1",), "blake3_hash_many_sse41", "hash"), ("c/blake3_avx2.c", ("-mavx2",), "blake3_hash_many_avx2", "hash"),
              ("c/blake3_avx512.c", ("-mavx512f", "-mavx512vl"), "blake3_hash_many_avx512", "hash"),
-             ("c/blake3_avx512.c", ("-mavx512f", "-mavx512vl"), "blake3_xof_many_avx512", "xof")]
+             ("c/blake3_avx512.c", ("-mavx512f", "-mavx512vl"), "blake3_xof_many_avx512", "xof"),
+             ("c/blake3_neon.c", "NEON", "blake3_hash_many_neon", "hash")]
 
 
 def _width_of(callee):
@@ -698,7 +713,7 @@ def rule_ST_c(ctx):
     norm = r_cbudget.norm
     nstages = 0
     for path, mflags, fname, kind in C_DRIVERS:
-        t = _rc.tu(path, (), extra_args=mflags, filt=fname)
+        t = _rc.tu(path, (), extra_args=_mf(mflags), filt=fname)
         f = t.funcs.get(fname)
         if f is None:
             raise MissingAnchor("%s in %s" % (fname, path))
@@ -772,7 +787,7 @@ def rule_ST_c(ctx):
             lc = [x[1] for x in last_body if x[0] == "expr" and x[1][0] == "call"]
             ctx.ob(bool(deleg) or (bool(lc) and _width_of(lc[0][1]) == 1), "driver-ends-with-width-1:%s" % fname, where,
                    "the remainder is delegated to %s with every cursor passed through" % deleg[0][1][1] if deleg else "the last stage handles single items (so that any count is consumed)")
-    ctx.floor("C driver stages", nstages, 14)
+    ctx.floor("C driver stages", nstages, 16)
 
 
 def rule_ST_rust(ctx, F):
@@ -851,7 +866,7 @@ C_SINGLE_FILTERS = {"sse2": ["compress", "loadu", "storeu", "addv", "xorv", "set
 def _tus(path, mflags, filters):
     from concurrent.futures import ThreadPoolExecutor
     with ThreadPoolExecutor(max_workers=12) as ex:
-        return list(ex.map(lambda f: _rc.tu(path, (), extra_args=mflags, filt=f), filters))
+        return list(ex.map(lambda f: _rc.tu(path, (), extra_args=_mf(mflags), filt=f), filters))
 
 
 def rule_R1_cvec(ctx):
@@ -954,7 +969,8 @@ C_TRANSPOSE = [("c/blake3_sse2.c", ("-msse2",), "transpose_vecs", "transpose_msg
                ("c/blake3_avx2.c", ("-mavx2",), "transpose_vecs", "transpose_msg_vecs", 8, ["transpose", "loadu"]),
                ("c/blake3_avx512.c", ("-mavx512f", "-mavx512vl"), "transpose_vecs_128", "transpose_msg_vecs4", 4, ["transpose", "loadu", "unpack_"]),
                ("c/blake3_avx512.c", ("-mavx512f", "-mavx512vl"), "transpose_vecs_256", "transpose_msg_vecs8", 8, ["transpose", "loadu", "unpack_"]),
-               ("c/blake3_avx512.c", ("-mavx512f", "-mavx512vl"), "transpose_vecs_512", "transpose_msg_vecs16", 16, ["transpose", "loadu", "unpack_"])]
+               ("c/blake3_avx512.c", ("-mavx512f", "-mavx512vl"), "transpose_vecs_512", "transpose_msg_vecs16", 16, ["transpose", "loadu", "unpack_"]),
+               ("c/blake3_neon.c", "NEON", "transpose_vecs_128", "transpose_msg_vecs4", 4, ["transpose", "loadu"])]
 
 
 def rule_TP_c(ctx):
@@ -994,7 +1010,7 @@ def rule_TP_c(ctx):
                    "out[j].lane[k] = word j of input k's block at block_offset, loads stay inside [offset, offset+64): %s" % ("yes" if not bad and okl else "fails at out[%d].lane[%d]" % bad[0] if bad else "load outside the block"))
         except SymFail as e:
             ctx.ob(False, inst, "%s:%s" % (path, f["line"]), "not evaluable lane-precisely: %s" % e)
-    ctx.floor("C transposition helpers", 2 * len(C_TRANSPOSE), 12)
+    ctx.floor("C transposition helpers", 2 * len(C_TRANSPOSE), 14)
 
 
 def rule_TP_rust(ctx, F):
@@ -1127,7 +1143,8 @@ C_HASHN = [("c/blake3_sse2.c", ("-msse2",), "blake3_hash4_sse2", "load_counters"
            ("c/blake3_avx2.c", ("-mavx2",), "blake3_hash8_avx2", "load_counters", 8, ["hash8", "round_fn", "transpose", "loadu", "storeu", "addv", "xorv", "set1", "rot"]),
            ("c/blake3_avx512.c", ("-mavx512f", "-mavx512vl"), "blake3_hash4_avx512", "load_counters4", 4, ["hash4", "round_fn", "transpose", "loadu", "storeu", "add_", "xor_", "set1_", "rot", "unpack_"]),
            ("c/blake3_avx512.c", ("-mavx512f", "-mavx512vl"), "blake3_hash8_avx512", "load_counters8", 8, ["hash8", "round_fn", "transpose", "loadu", "storeu", "add_", "xor_", "set1_", "rot", "unpack_"]),
-           ("c/blake3_avx512.c", ("-mavx512f", "-mavx512vl"), "blake3_hash16_avx512", "load_counters16", 16, ["hash16", "round_fn", "transpose", "loadu", "storeu", "add_", "xor_", "set1_", "rot", "unpack_"])]
+           ("c/blake3_avx512.c", ("-mavx512f", "-mavx512vl"), "blake3_hash16_avx512", "load_counters16", 16, ["hash16", "round_fn", "transpose", "loadu", "storeu", "add_", "xor_", "set1_", "rot", "unpack_"]),
+           ("c/blake3_neon.c", "NEON", "blake3_hash4_neon", "load_counters4", 4, ["hash4", "round_fn", "transpose", "loadu", "storeu", "add_", "xor_", "set1_", "rot"])]
 
 
 def rule_HN_c(ctx):
@@ -1209,7 +1226,7 @@ def rule_HN_c(ctx):
         except SymFail as e:
             bad = "not evaluable lane-precisely: %s" % e
         ctx.ob(bad is None, inst, where, bad or "h := key; body = spec compression per input over the 64 bytes at the block offset with the counter lanes; output word i of input k stored at out[32k+4i], %d bytes" % (32 * N))
-    ctx.floor("C hashN kernels", n, 6)
+    ctx.floor("C hashN kernels", n, 7)
 
 
 def rule_HN_rust(ctx, F):
